@@ -296,6 +296,19 @@ func (s *vfStream) watch() {
 	}
 }
 
+// settle blocks until the driving goroutine(s) of the other end have consumed everything sent to
+// them and are blocked reading (or have finished); it then reports whether bytes are waiting for
+// end self. Used by scripted peers to find out whether the endpoint under test has answered.
+func (s *vfStream) settle(self int) (pending bool) {
+	s.mu.Lock()
+	defer s.mu.Unlock()
+	o := s.ends[1-self]
+	for !(o.active == 0 || o.closed || (o.blocked >= o.active && len(o.in) == 0)) {
+		s.cond.Wait()
+	}
+	return len(s.ends[self].in) > 0
+}
+
 func (s *vfStream) snapshot(idx int) (wrote, sentOut []byte) {
 	s.mu.Lock()
 	defer s.mu.Unlock()
